@@ -339,6 +339,7 @@ def run(chk):
     _unregister_rule(chk, prog)
     _timeoutarm_rule(chk, prog)
     _chunkmode_rule(chk, prog)
+    _cloexec_rule(chk, prog)
 
 
 def _solewaiter_rule(chk, prog):
@@ -592,7 +593,7 @@ def _sideowner_rule(chk, prog):
                 chk.violation(rule, "ev.c", fn.name, "blind-clear:" + x.kids[0].field, x.loc,
                               "`%s` clears the slot on a path that never looked at it: when the detaching fiber was cancelled and another "
                               "fiber has since registered there, the newcomer's registration is wiped and no event is ever delivered to it" % x.text()[:60])
-    chk.floor(rule, 8, n)
+    chk.floor(rule, 7, n)
 
 
 def _markevent_rule(chk, prog):
@@ -708,7 +709,7 @@ def _regdir_rule(chk, prog):
                               "for an event that never comes (net/send-to on a datagram listener hangs once the peer's queue is full)" % (
                                   of.name, c.loc, sorted(x.replace("JANET_STREAM_", "") for x in have), d, d,
                                   sorted(x.replace("JANET_STREAM_", "") for x in masks[d])))
-    chk.floor(rule, 8, n)
+    chk.floor(rule, 7, n)
 
 
 def _unregister_rule(chk, prog):
@@ -823,3 +824,126 @@ def _chunkmode_rule(chk, prog):
                                   "%s starts its read with %s, which completes after the first successful read: when the bytes arrive in "
                                   "more than one piece the chunk comes back short and the rest is given to the next read" % (fn.name, c.callee))
     chk.floor(rule, 2, n)
+
+
+FD_CREATORS = {"socket": 1, "accept4": 3, "epoll_create1": 0, "timerfd_create": 1, "inotify_init1": 0, "open": 1,
+               "pipe2": 1, "eventfd": 1, "signalfd": 2, "memfd_create": 1}
+
+
+def _cloexec_rule(chk, prog):
+    """A descriptor the runtime opens for itself must not survive into the programs it starts: a child that holds a
+    copy of a connection keeps it open after the parent's close (the peer never sees end-of-stream), and a child
+    holding the loop's own pipe can stall it.  Every creating call that takes a flags argument therefore asks for
+    close-on-exec there; the one pipe() in janet_make_pipe sets it per end according to `mode`, and a caller that keeps
+    both ends (the event loop's self-pipe) completes it with fcntl.  dup() has no flags argument and is not covered."""
+    rule = "C16-CLOEXEC"
+    chk.rule(rule, "every descriptor-creating call with a flags argument requests close-on-exec, and the event loop's self-pipe is close-on-exec at both ends")
+    n = 0
+    for fn in prog.all_funcs():
+        for c in fn.nodes:
+            if c.k != "call" or c.callee not in FD_CREATORS:
+                continue
+            idx = FD_CREATORS[c.callee]
+            if idx >= len(c.args):
+                continue
+            n += 1
+            chk.instance(rule)
+            chk.analysed(fn)
+            a = c.args[idx]
+            names = set()
+            for y in a.walk():
+                names.update(m.rstrip("@") for m in y.macro_names())
+                if y.k == "ref":
+                    names.add(y.name)
+            ok = any(m.endswith("CLOEXEC") for m in names)
+            if not ok:
+                # a flags variable that is or-ed with *_CLOEXEC somewhere in the function
+                for y in a.walk():
+                    if y.k == "ref" and any(x.k == "asg" and x.op in ("|=", "=") and is_ref(x.kids[0]) and x.kids[0].name == y.name
+                                            and any(m.rstrip("@").endswith("CLOEXEC") for z in x.kids[1].walk() for m in z.macro_names())
+                                            for x in fn.nodes):
+                        ok = True
+            if ok:
+                chk.ok(rule, "%s: %s(...) requests close-on-exec" % (fn.name, c.callee))
+            else:
+                chk.violation(rule, fn.tu.name, fn.name, c.callee, c.loc,
+                              "`%s` creates a descriptor without a close-on-exec flag: every subprocess started afterwards inherits it - a child "
+                              "that outlives a connection keeps it open after the parent closed it, and the peer's read is not woken" % c.text()[:70])
+    # the self-pipe
+    sp = prog.need_func("janet_ev_setup_selfpipe", "ev.c")
+    mk = prog.need_func("janet_make_pipe", "ev.c")
+    chk.analysed(sp)
+    n += 1
+    chk.instance(rule)
+    calls = sp.calls("janet_make_pipe")
+    if not calls:
+        raise AnalysisBroken("janet_ev_setup_selfpipe no longer calls janet_make_pipe")
+    mode = strip_casts(calls[0].args[1]).v
+
+    def excluded_modes(setfl_macro, which):
+        """modes for which janet_make_pipe does NOT call fcntl(handles[which], <cmd>, ...)"""
+        out = None
+        for x in mk.nodes:
+            if x.k == "if":
+                fc = [q for q in x.kids[0].walk() if q.k == "call" and q.callee == "fcntl"]
+                if not fc or len(fc[0].args) < 3:
+                    continue
+                a0 = fc[0].args[0]
+                if not any(strip_casts(z).v == which for y in a0.walk() if y.k == "sub" for z in y.kids[1:]):
+                    continue
+                if setfl_macro not in set(m.rstrip("@") for y in fc[0].args[1].walk() for m in y.macro_names()) and \
+                        not any(y.k == "ref" and y.name == setfl_macro for y in fc[0].args[1].walk()):
+                    continue
+                out = set(strip_casts(q.kids[1]).v for q in x.kids[0].walk() if q.k == "bin" and q.op == "!=" and
+                          is_ref(strip_casts(q.kids[0])) and strip_casts(q.kids[0]).name == mk.params[1]["n"])
+        return out
+    ends = {}
+    for which in (0, 1):
+        ex = excluded_modes("F_SETFD", which)
+        if ex is None:
+            raise AnalysisBroken("janet_make_pipe: the FD_CLOEXEC call for handles[%d] was not recognised" % which)
+        ends[which] = mode not in ex
+    completes = set()
+    for q in sp.calls("fcntl"):
+        if len(q.args) >= 3 and any(m.rstrip("@") == "FD_CLOEXEC" for y in q.args[2].walk() for m in y.macro_names()) or \
+                any(y.k == "ref" and y.name == "FD_CLOEXEC" for y in q.walk()):
+            for y in q.args[0].walk():
+                if y.k == "sub":
+                    v = strip_casts(y.kids[1]).v
+                    if v is not None:
+                        completes.add(v)
+    open_ends = [w for w in (0, 1) if not ends[w] and w not in completes]
+    if open_ends:
+        chk.violation(rule, "ev.c", sp.name, "selfpipe", calls[0].loc,
+                      "the event loop's self-pipe is made with mode %s, which leaves end %s inheritable, and janet_ev_setup_selfpipe does not set "
+                      "FD_CLOEXEC on it: every subprocess gets a descriptor onto the parent's completion pipe" % (mode, open_ends))
+    else:
+        chk.ok(rule, "self-pipe: mode %s plus fcntl leaves neither end inheritable" % mode)
+    chk.floor(rule, 7, n)
+
+
+def selfpipe_write_end_nonblocking(prog):
+    """(mode literal, True/False/None, call node): does janet_make_pipe(selfpipe, mode) make handles[1] O_NONBLOCK?"""
+    sp = prog.need_func("janet_ev_setup_selfpipe", "ev.c")
+    mk = prog.need_func("janet_make_pipe", "ev.c")
+    calls = sp.calls("janet_make_pipe")
+    if not calls:
+        raise AnalysisBroken("janet_ev_setup_selfpipe no longer calls janet_make_pipe")
+    mode = strip_casts(calls[0].args[1]).v
+    ex = None
+    for x in mk.nodes:
+        if x.k != "if":
+            continue
+        fc = [q for q in x.kids[0].walk() if q.k == "call" and q.callee == "fcntl"]
+        if not fc or len(fc[0].args) < 3:
+            continue
+        if not any(strip_casts(z).v == 1 for y in fc[0].args[0].walk() if y.k == "sub" for z in y.kids[1:]):
+            continue
+        cmd = set(m.rstrip("@") for y in fc[0].args[1].walk() for m in y.macro_names()) | set(y.name for y in fc[0].args[1].walk() if y.k == "ref")
+        if "F_SETFL" not in cmd:
+            continue
+        ex = set(strip_casts(q.kids[1]).v for q in x.kids[0].walk() if q.k == "bin" and q.op == "!=" and
+                 is_ref(strip_casts(q.kids[0])) and strip_casts(q.kids[0]).name == mk.params[1]["n"])
+    if ex is None:
+        return mode, None, calls[0]
+    return mode, mode not in ex, calls[0]
